@@ -37,6 +37,10 @@ class Boom(RuntimeError):
     pass
 
 
+class BaseBoom(BaseException):
+    """Not an Exception subclass (like KeyboardInterrupt): cleanup written with `except Exception` misses it."""
+
+
 def failing_callable(slot, k, mode):
     """Updater for `slot` that misbehaves on its k-th call (0 based)."""
     n = [0]
@@ -47,6 +51,10 @@ def failing_callable(slot, k, mode):
         if i == k:
             if mode == "raise":
                 raise Boom(f"updater failed on selected point {k}")
+            if mode == "raise-base":
+                raise BaseBoom(f"updater interrupted on selected point {k}")
+            if mode == "stop-iteration":
+                raise StopIteration
             return {"time": "not a datetime", "measurement": 5, "tags": {"z": 5}, "fields": {"z": "NaN?"}}[slot]
         if slot == "time":
             return old + timedelta(hours=1)
@@ -111,7 +119,7 @@ def invalid_argument_calls():
     ]
 
 
-def in_place_mutation_signature(pre, post, sel, k, slot, cfg):
+def in_place_mutation_signature(pre, post, sel, k, slot, cfg, good_update=None):
     """Features telling whether a changed content is the listed in-place-mutation mechanism."""
     f = {"storage": cfg["storage"], "position": k}
     if cfg["storage"] != "mem" or len(pre) != len(post):
@@ -128,7 +136,7 @@ def in_place_mutation_signature(pre, post, sel, k, slot, cfg):
             break
         r = sel.index(i)
         if r < k:
-            if model_after_good_update(a, slot).canon() != b:
+            if (good_update(a) if good_update else model_after_good_update(a, slot)).canon() != b:
                 ok = False
                 break
         else:
@@ -162,7 +170,7 @@ class FaultRun:
                 s.model.points = [MPoint(c[0], c[1], dict(c[2]), dict(c[3])) for c in post]
                 self.res.count("prefix_resynced")
 
-    def after_fault(self, s, fault, exc, expected, extra_features=None, sel=None, k=None, slot=None):
+    def after_fault(self, s, fault, exc, expected, extra_features=None, sel=None, k=None, slot=None, good_update=None):
         """Common oracle after the failing call."""
         res = self.res
         res.evaluations += 1
@@ -189,8 +197,9 @@ class FaultRun:
         if post != want:
             feats = dict(extra_features or {})
             if sel is not None:
-                feats.update(in_place_mutation_signature(list(s.model.points), post, sel, k, slot, self.cfg))
+                feats.update(in_place_mutation_signature(list(s.model.points), post, sel, k, slot, self.cfg, good_update))
             feats["fault"] = fault.split(":")[0]
+            feats["failing_op_is_update"] = fault.startswith("update_callable") or ":update(" in fault or ":handle.update(" in fault
             self.violate(s, "contents-changed-by-failed-call",
                          {"fault": fault, "exception": f"{type(exc).__name__}: {exc}"[:200], "expected": repr(want)[:600], "observed": repr(post)[:600]}, feats)
             # index and later behaviour are downstream of the changed contents: stop this run here
@@ -288,7 +297,7 @@ class FaultRun:
         from tinyflux import MeasurementQuery, TagQuery
 
         for slot in SLOT_ORDER:
-            for mode in ("raise", "invalid"):
+            for mode in ("raise", "invalid", rng.choice(["raise-base", "stop-iteration"])):
                 # choose a selection
                 choice = rng.choice(["all", "m0", "k-exists", "update_all"])
                 if choice == "all":
@@ -308,7 +317,7 @@ class FaultRun:
                             s.db.update_all(**{slot: f})
                         else:
                             s.db.update(q, **{slot: f})
-                    except Exception as e:
+                    except (Exception, BaseBoom) as e:
                         exc = e
                     fault = f"update_callable:{slot}:{mode}@{k}/{len(sel)}:{choice}"
                     s.log.append({"op": "FAULT", "fault": fault})
@@ -316,6 +325,47 @@ class FaultRun:
                     if not self.after_fault(s, fault, exc, list(s.model.points), sel=sel, k=k, slot=slot):
                         return
         self.continue_history(s, "update_callable")
+
+    def fault_raising_predicate(self, s):
+        """The query's own test()/map() function raises while remove/update/reads evaluate it."""
+        from tinyflux import FieldQuery, MeasurementQuery, TagQuery
+
+        def boom_after(k):
+            n = [0]
+
+            def f(v):
+                n[0] += 1
+                if n[0] > k:
+                    raise Boom("query predicate failed")
+                return True
+
+            return f
+
+        for k in (0, 1, 3):
+            calls = [
+                ("remove(test raises)", lambda db, k=k: db.remove(TagQuery().k.test(boom_after(k)))),
+                ("remove(measurement test raises)", lambda db, k=k: db.remove(MeasurementQuery().test(boom_after(k)))),
+                ("update(test raises)", lambda db, k=k: db.update(FieldQuery().x.test(boom_after(k)), tags={"zz": "1"})),
+                ("handle.remove(test raises)", lambda db, k=k: db.measurement("m0").remove(MeasurementQuery().test(boom_after(k)))),
+                ("count(test raises)", lambda db, k=k: db.count(MeasurementQuery().test(boom_after(k)))),
+                ("search(test raises)", lambda db, k=k: db.search(TagQuery().k.test(boom_after(k)))),
+            ]
+            for label, call in calls:
+                exc = None
+                try:
+                    call(s.db)
+                except Exception as e:
+                    exc = e
+                fault = f"raising_predicate:{label}@{k}"
+                s.log.append({"op": "FAULT", "fault": fault})
+                kw = {}
+                if label.startswith("update("):
+                    # points on which the predicate was evaluated (those with field x), in storage order
+                    kw = dict(sel=[i for i, p in enumerate(s.model.points) if "x" in p.fields], k=k,
+                              good_update=lambda mp: apply_update(mp, {"tags": {"static": {"zz": "1"}}}))
+                if not self.after_fault(s, fault, exc, list(s.model.points), **kw):
+                    return
+        self.continue_history(s, "raising_predicate")
 
     def fault_invalid_arguments(self, s):
         for label, call in invalid_argument_calls():
@@ -373,7 +423,7 @@ class FaultRun:
                 return
 
 
-FAMILIES = ["insert_multiple", "update_callable", "invalid_arguments", "read_only"]
+FAMILIES = ["insert_multiple", "update_callable", "invalid_arguments", "read_only", "raising_predicate"]
 
 
 def run(res, tier, seed, shard, nshards):
@@ -393,7 +443,7 @@ def run(res, tier, seed, shard, nshards):
                     rng = rng_for("C11", tier, seed, shard, ci, h, fam)
                     FaultRun(res, cfg, scratch, rng).run_one(fam)
     contracts.drain(res)
-    for fam in ("insert_multiple", "update_callable", "invalid_argument", "read_only"):
+    for fam in ("insert_multiple", "update_callable", "invalid_argument", "read_only", "raising_predicate"):
         res.require(f"faults.{fam}")
     res.require("update_fault_position.later")
     res.require("index_battery_after_fault")
